@@ -25,7 +25,74 @@ const prelude = `(set-logic ALL)
 (declare-fun fsub_F64 (F64 F64) F64)
 (declare-fun fmul_F64 (F64 F64) F64)
 (declare-fun fdiv_F64 (F64 F64) F64)
-`
+(declare-fun i2f_u8_F32 ((_ BitVec 8)) F32)
+(declare-fun i2f_u8_F64 ((_ BitVec 8)) F64)
+(declare-fun i2f_u16_F32 ((_ BitVec 16)) F32)
+(declare-fun i2f_u16_F64 ((_ BitVec 16)) F64)
+(declare-fun i2f_u32_F32 ((_ BitVec 32)) F32)
+(declare-fun i2f_u32_F64 ((_ BitVec 32)) F64)
+(declare-fun i2f_u64_F32 ((_ BitVec 64)) F32)
+(declare-fun i2f_u64_F64 ((_ BitVec 64)) F64)
+(declare-fun i2f_s8_F32 ((_ BitVec 8)) F32)
+(declare-fun i2f_s8_F64 ((_ BitVec 8)) F64)
+(declare-fun i2f_s16_F32 ((_ BitVec 16)) F32)
+(declare-fun i2f_s16_F64 ((_ BitVec 16)) F64)
+(declare-fun i2f_s32_F32 ((_ BitVec 32)) F32)
+(declare-fun i2f_s32_F64 ((_ BitVec 32)) F64)
+(declare-fun i2f_s64_F32 ((_ BitVec 64)) F32)
+(declare-fun i2f_s64_F64 ((_ BitVec 64)) F64)
+(assert (= (i2f_u8_F32 #x00) ((_ to_fp_unsigned 8 24) RNE #x00)))
+(assert (= (i2f_u8_F64 #x00) ((_ to_fp_unsigned 11 53) RNE #x00)))
+(assert (= (i2f_u16_F32 #x0000) ((_ to_fp_unsigned 8 24) RNE #x0000)))
+(assert (= (i2f_u16_F64 #x0000) ((_ to_fp_unsigned 11 53) RNE #x0000)))
+(assert (= (i2f_u32_F32 #x00000000) ((_ to_fp_unsigned 8 24) RNE #x00000000)))
+(assert (= (i2f_u32_F64 #x00000000) ((_ to_fp_unsigned 11 53) RNE #x00000000)))
+(assert (= (i2f_u64_F32 #x0000000000000000) ((_ to_fp_unsigned 8 24) RNE #x0000000000000000)))
+(assert (= (i2f_u64_F64 #x0000000000000000) ((_ to_fp_unsigned 11 53) RNE #x0000000000000000)))
+(assert (= (i2f_s8_F32 #x00) ((_ to_fp 8 24) RNE #x00)))
+(assert (= (i2f_s8_F64 #x00) ((_ to_fp 11 53) RNE #x00)))
+(assert (= (i2f_s16_F32 #x0000) ((_ to_fp 8 24) RNE #x0000)))
+(assert (= (i2f_s16_F64 #x0000) ((_ to_fp 11 53) RNE #x0000)))
+(assert (= (i2f_s32_F32 #x00000000) ((_ to_fp 8 24) RNE #x00000000)))
+(assert (= (i2f_s32_F64 #x00000000) ((_ to_fp 11 53) RNE #x00000000)))
+(assert (= (i2f_s64_F32 #x0000000000000000) ((_ to_fp 8 24) RNE #x0000000000000000)))
+(assert (= (i2f_s64_F64 #x0000000000000000) ((_ to_fp 11 53) RNE #x0000000000000000)))
+` + arithDefs + "\n"
+
+// integer division/remainder by a non-constant divisor go through these names: defined (interpreted) normally,
+// declared (uninterpreted) in the abstraction stage - a goal that follows by congruence alone then needs no divider circuits
+const arithDefs = `(define-fun udiv8 ((a (_ BitVec 8)) (b (_ BitVec 8))) (_ BitVec 8) (bvudiv a b))
+(define-fun sdiv8 ((a (_ BitVec 8)) (b (_ BitVec 8))) (_ BitVec 8) (bvsdiv a b))
+(define-fun urem8 ((a (_ BitVec 8)) (b (_ BitVec 8))) (_ BitVec 8) (bvurem a b))
+(define-fun srem8 ((a (_ BitVec 8)) (b (_ BitVec 8))) (_ BitVec 8) (bvsrem a b))
+(define-fun udiv16 ((a (_ BitVec 16)) (b (_ BitVec 16))) (_ BitVec 16) (bvudiv a b))
+(define-fun sdiv16 ((a (_ BitVec 16)) (b (_ BitVec 16))) (_ BitVec 16) (bvsdiv a b))
+(define-fun urem16 ((a (_ BitVec 16)) (b (_ BitVec 16))) (_ BitVec 16) (bvurem a b))
+(define-fun srem16 ((a (_ BitVec 16)) (b (_ BitVec 16))) (_ BitVec 16) (bvsrem a b))
+(define-fun udiv32 ((a (_ BitVec 32)) (b (_ BitVec 32))) (_ BitVec 32) (bvudiv a b))
+(define-fun sdiv32 ((a (_ BitVec 32)) (b (_ BitVec 32))) (_ BitVec 32) (bvsdiv a b))
+(define-fun urem32 ((a (_ BitVec 32)) (b (_ BitVec 32))) (_ BitVec 32) (bvurem a b))
+(define-fun srem32 ((a (_ BitVec 32)) (b (_ BitVec 32))) (_ BitVec 32) (bvsrem a b))
+(define-fun udiv64 ((a (_ BitVec 64)) (b (_ BitVec 64))) (_ BitVec 64) (bvudiv a b))
+(define-fun sdiv64 ((a (_ BitVec 64)) (b (_ BitVec 64))) (_ BitVec 64) (bvsdiv a b))
+(define-fun urem64 ((a (_ BitVec 64)) (b (_ BitVec 64))) (_ BitVec 64) (bvurem a b))
+(define-fun srem64 ((a (_ BitVec 64)) (b (_ BitVec 64))) (_ BitVec 64) (bvsrem a b))`
+const arithDecls = `(declare-fun udiv8 ((_ BitVec 8) (_ BitVec 8)) (_ BitVec 8))
+(declare-fun sdiv8 ((_ BitVec 8) (_ BitVec 8)) (_ BitVec 8))
+(declare-fun urem8 ((_ BitVec 8) (_ BitVec 8)) (_ BitVec 8))
+(declare-fun srem8 ((_ BitVec 8) (_ BitVec 8)) (_ BitVec 8))
+(declare-fun udiv16 ((_ BitVec 16) (_ BitVec 16)) (_ BitVec 16))
+(declare-fun sdiv16 ((_ BitVec 16) (_ BitVec 16)) (_ BitVec 16))
+(declare-fun urem16 ((_ BitVec 16) (_ BitVec 16)) (_ BitVec 16))
+(declare-fun srem16 ((_ BitVec 16) (_ BitVec 16)) (_ BitVec 16))
+(declare-fun udiv32 ((_ BitVec 32) (_ BitVec 32)) (_ BitVec 32))
+(declare-fun sdiv32 ((_ BitVec 32) (_ BitVec 32)) (_ BitVec 32))
+(declare-fun urem32 ((_ BitVec 32) (_ BitVec 32)) (_ BitVec 32))
+(declare-fun srem32 ((_ BitVec 32) (_ BitVec 32)) (_ BitVec 32))
+(declare-fun udiv64 ((_ BitVec 64) (_ BitVec 64)) (_ BitVec 64))
+(declare-fun sdiv64 ((_ BitVec 64) (_ BitVec 64)) (_ BitVec 64))
+(declare-fun urem64 ((_ BitVec 64) (_ BitVec 64)) (_ BitVec 64))
+(declare-fun srem64 ((_ BitVec 64) (_ BitVec 64)) (_ BitVec 64))`
 
 type Solver struct {
 	Timeout  int // seconds per query
@@ -264,6 +331,41 @@ func (sv *Solver) solveOne(c *Ctx, o Obl, timeout int, wantModel bool) OblResult
 		r.Ms += ms
 		if st == "unsat" {
 			r.Status, r.Solver, r.Output, done = "unsat", "z3-euf", firstLines(out, 1), true
+		}
+	}
+	// Stage A1c: hypotheses' byte-level foralls instantiated at the constant offsets 0..47
+	if !done {
+		if qk := c.qfQueryK(o, 48); qk != "" {
+			if sv.DumpDir != "" {
+				os.WriteFile(fmt.Sprintf("%s/QK_%s.smt2", sv.DumpDir, sanitizeSym(o.Name)), []byte(qk), 0o644)
+			}
+			for _, sn := range []string{"z3-new", "z3-euf"} {
+				st, out, ms := sv.run(sn, qk, short+3)
+				r.Ms += ms
+				if st == "unsat" {
+					r.Status, r.Solver, r.Output, done = "unsat", sn, "qf-instantiated at constant offsets: "+firstLines(out, 1), true
+					break
+				}
+			}
+			if !done && strings.Contains(qk, "div") {
+				st, out, ms := sv.run("z3-euf", strings.Replace(qk, arithDefs, arithDecls, 1), short+3)
+				r.Ms += ms
+				if st == "unsat" {
+					r.Status, r.Solver, r.Output, done = "unsat", "z3-euf", "qf-instantiated at constant offsets, divisions uninterpreted: "+firstLines(out, 1), true
+				}
+			}
+		}
+	}
+	// Stage A1b: integer divisions abstracted to uninterpreted functions (sound: fewer facts), euf core
+	if !done && qf == "" && strings.Contains(q, "div") && (strings.Contains(q, "(udiv") || strings.Contains(q, "(sdiv") || strings.Contains(q, "(urem") || strings.Contains(q, "(srem")) {
+		aq := strings.Replace(q, arithDefs, arithDecls, 1)
+		for _, sn := range []string{"z3-euf", "z3-new"} {
+			st, out, ms := sv.run(sn, aq, short+3)
+			r.Ms += ms
+			if st == "unsat" {
+				r.Status, r.Solver, r.Output, done = "unsat", sn, "divisions uninterpreted: "+firstLines(out, 1), true
+				break
+			}
 		}
 	}
 	// Stage A2: case split on the last control-flow join: the obligation's path condition is a disjunction of edge
